@@ -924,6 +924,55 @@ static int apply_patch(cJSON *object, const cJSON *patch, const cJSON_bool case_
             status = 0;
             goto cleanup;
         }
+
+        if ((opcode == MOVE) || (opcode == COPY))
+        {
+            /* the value designated by "from" becomes the whole document */
+            cJSON *from = get_object_item(patch, "from", case_sensitive);
+            if (!cJSON_IsString(from))
+            {
+                /* missing or malformed "from" for copy/move. */
+                status = 4;
+                goto cleanup;
+            }
+
+            if (opcode == MOVE)
+            {
+                if (from->valuestring[0] == '\0')
+                {
+                    /* moving the document onto itself changes nothing */
+                    status = 0;
+                    goto cleanup;
+                }
+                value = detach_path(object, (unsigned char*)from->valuestring, case_sensitive);
+            }
+            else
+            {
+                value = cJSON_Duplicate(get_item_from_pointer(object, from->valuestring, case_sensitive), 1);
+            }
+            if (value == NULL)
+            {
+                /* missing "from" for copy/move (or out of memory). */
+                status = 5;
+                goto cleanup;
+            }
+
+            overwrite_item(object, *value);
+
+            /* only the node itself is left of the moved/duplicated value */
+            cJSON_free(value);
+            value = NULL;
+
+            /* the document has no name */
+            if (object->string != NULL)
+            {
+                cJSON_free(object->string);
+                object->string = NULL;
+            }
+
+            status = 0;
+            goto cleanup;
+        }
     }
 
     if ((opcode == REMOVE) || (opcode == REPLACE))
